@@ -9,8 +9,8 @@ for d in seeded/*/; do
   [ -f $d/meta.json ] || continue
   if [ -n "$1" ] && [[ ! "$id" =~ $1 ]]; then continue; fi
   prop=$(python3 -c "import json,sys;print(json.load(open('$d/meta.json'))['check']['command'].split()[1])")
-  if ! git -C /repo apply --check $d/patch.diff 2>/dev/null; then echo "$id $prop NOAPPLY" | tee -a $out; continue; fi
-  res=$(tools/mutcheck.sh $prop $d/patch.diff quick 2>&1 | head -1)
+  if ! git -C /repo apply --check /verif/$d/patch.diff 2>/dev/null; then echo "$id $prop NOAPPLY" | tee -a $out; continue; fi
+  res=$(tools/mutcheck.sh $prop /verif/$d/patch.diff quick 2>&1 | head -1)
   cls=$(grep -m1 "^violation class" /tmp/mutcheck.$prop.log | cut -c1-120)
   echo "$id $prop $res $cls" | tee -a $out
 done
